@@ -66,7 +66,7 @@ func (p *Path) String() string {
 	case "typeassert":
 		s = p.Args[0].String() + ".(" + p.Name + ")"
 	case "slice":
-		s = p.Args[0].String() + "[:]"
+		s = p.Args[0].String() + "[" + p.Name + "]"
 	case "range":
 		s = "range(" + p.Args[0].String() + ")"
 	default:
@@ -379,6 +379,9 @@ func (e *pathEnv) compute(v ssa.Value) *Path {
 	case *ssa.ChangeType:
 		return e.of(x.X)
 	case *ssa.Convert:
+		if riskyConv(x.X.Type(), x.Type()) {
+			return &Path{Kind: "call", Name: "conv:" + shortType(x.Type()), Args: []*Path{e.of(x.X)}}
+		}
 		return e.of(x.X)
 	case *ssa.ChangeInterface:
 		return e.of(x.X)
@@ -395,7 +398,22 @@ func (e *pathEnv) compute(v ssa.Value) *Path {
 	case *ssa.Lookup:
 		return &Path{Kind: "index", Args: []*Path{e.of(x.X), e.of(x.Index)}}
 	case *ssa.Slice:
-		return &Path{Kind: "slice", Args: []*Path{e.of(x.X)}}
+		sp := &Path{Kind: "slice", Args: []*Path{e.base(x.X)}}
+		b := func(v ssa.Value) string {
+			if v == nil {
+				return ""
+			}
+			return e.of(v).String()
+		}
+		if x.Low != nil || x.High != nil || x.Max != nil {
+			sp.Name = b(x.Low) + ":" + b(x.High)
+			if x.Max != nil {
+				sp.Name += ":" + b(x.Max)
+			}
+		} else {
+			sp.Name = ":"
+		}
+		return sp
 	case *ssa.TypeAssert:
 		return &Path{Kind: "typeassert", Name: shortType(x.AssertedType), Args: []*Path{e.of(x.X)}}
 	case *ssa.MakeClosure:
@@ -631,4 +649,30 @@ func isLoopPhi(ph *ssa.Phi) bool {
 		}
 	}
 	return false
+}
+
+// riskyConv: an integer conversion that changes signedness or narrows (the ones that can wrap).
+func riskyConv(from, to types.Type) bool {
+	fb, ok1 := from.Underlying().(*types.Basic)
+	tb, ok2 := to.Underlying().(*types.Basic)
+	if !ok1 || !ok2 || fb.Info()&types.IsInteger == 0 || tb.Info()&types.IsInteger == 0 {
+		return false
+	}
+	size := func(b *types.Basic) int {
+		switch b.Kind() {
+		case types.Int8, types.Uint8:
+			return 8
+		case types.Int16, types.Uint16:
+			return 16
+		case types.Int32, types.Uint32:
+			return 32
+		default:
+			return 64
+		}
+	}
+	fu, tu := fb.Info()&types.IsUnsigned != 0, tb.Info()&types.IsUnsigned != 0
+	if fu != tu {
+		return true
+	}
+	return size(tb) < size(fb)
 }
